@@ -744,6 +744,8 @@ impl LevelFilter {
             None => Self::OFF_USIZE,
         };
 
+        #[cfg(tokio_rs_tracing_verif)]
+        crate::verif::yield_point("metadata::set_max::before_swap");
         // using an AcqRel swap ensures an ordered relationship of writes to the
         // max level.
         MAX_LEVEL.swap(val, Ordering::AcqRel);
